@@ -43,3 +43,112 @@ def sem_prompt_group(tags=None):
                  unwind_fn={"nsync_mu_semaphore_p_with_deadline": 2},
                  assumed=SEM_ASSUMED + ["kernel: an absolute futex timeout that has already expired yields ETIMEDOUT at once when *uaddr == val"],
                  min_obligations=50)
+
+
+# ---------------------------------------------------------------- mutex word (rely/guarantee)
+MU_DEF = ["VP_ABSTRACT_QUEUE", "VP_RG_MU"]
+RG = ["rg/vp_rg.c", "rg/vp_stubs.c"]
+GSTEP = ["vp_g.hold", "vp_g.spin", "vp_g.waited", "vp_g.dead", "vp_g.set_desig", "vp_g.longw_set", "vp_g.enq_long", "vp_g.enq_count", "vp_g.last_new"]
+GALL = GSTEP + ["vp_g.queued", "vp_g.p_calls", "vp_g.v_calls", "vp_g.cond_evals", "vp_g.last_cond", "vp_g.last_sem_outcome"]
+HOLDLT = "((l_type == nsync_writer_type_ && vp_g.hold == 2) || (l_type == nsync_reader_type_ && vp_g.hold == 1))"
+MU_ASSUMED = ["rely/guarantee soundness (paper argument): L-J + F-f for all f  ==>  J holds in every reachable state of every interleaving; atomic steps indivisible and sequentially consistent",
+              "fewer than 2^24-1 threads hold or request one mutex (reader-count width)",
+              "clients release only what they hold (precondition of the release functions)"]
+
+L_LOCK_SLOW = {"nsync_mu_lock_slow_": [
+    {"names": ["clear", "long_wait", "wait_count", "zero_to_acquire", "l_type", "mu", "w", "attempts"],
+     "invariants": ["vp_g.hold == 0 && vp_g.spin == 0 && vp_g.dead == 0 && vp_g.queued == 0",
+                    "clear == 0 || clear == 8u",
+                    "(vp_tag_C03_wake_acq != 0 || ((clear == 8u) == (vp_g.waited != 0)))",
+                    # C01: the acquisition mask keeps every lock bit the lock type demands
+                    "(vp_tag_C01_hold != 0 || (zero_to_acquire & l_type->zero_to_acquire & 4294967041u) == (l_type->zero_to_acquire & 4294967041u))",
+                    # C14: a thread that has not waited keeps MU_LONG_WAIT / MU_WRITER_WAITING in its mask
+                    "(vp_tag_C14_escalate != 0 || clear != 0 || (zero_to_acquire & 96u) == (l_type->zero_to_acquire & 96u))",
+                    "long_wait == 0 || long_wait == 64u",
+                    "(vp_tag_C14_escalate != 0 || wait_count < 30u || long_wait == 64u)",
+                    "vp_g.enq_count == wait_count"],
+     "assigns": GALL + ["vp_fw", "mu->word", "mu->waiters", "w->nw.waiting", "clear", "long_wait", "wait_count", "zero_to_acquire", "attempts"]},
+    {"names": ["w", "clear", "wait_count"],
+     "invariants": ["vp_g.hold == 0 && vp_g.spin == 0 && vp_g.dead == 0", "vp_g.queued == 1",
+                    "(clear == 0 && vp_g.waited == 0) || (clear == 8u && vp_g.waited != 0)", "vp_g.enq_count == wait_count + 1u"],
+     "assigns": GALL + ["w->nw.waiting"]}]}
+L_REL_SPIN = {"mu_release_spinlock": [{"names": ["mu", "old_word"], "invariants": ["vp_g.spin == 1 && vp_g.dead == 0"],
+                                      "assigns": ["vp_g.spin", "vp_g.last_new", "vp_g.dead", "mu->word", "old_word"]}]}
+L_SPIN_TAS = {"nsync_spin_test_and_set_": [{"names": ["w", "old", "attempts", "test"],
+    "invariants": ["w != vp_reg.mu_word || (vp_g.spin == 0 && vp_g.dead == 0 && vp_g.hold == __CPROVER_loop_entry(vp_g.hold) && "
+                   "vp_g.waited == __CPROVER_loop_entry(vp_g.waited) && vp_g.queued == __CPROVER_loop_entry(vp_g.queued) && "
+                   "vp_g.set_desig == __CPROVER_loop_entry(vp_g.set_desig))"],
+    "assigns": ["*w", "vp_g.spin", "vp_g.enq_count", "vp_g.enq_long", "vp_g.last_new", "old", "attempts"]}]}
+L_TRY_ACQ = {"mu_try_acquire_after_timeout_or_cancel": [{"names": ["mu", "old_word", "spin_attempts"],
+    "invariants": ["vp_g.hold == 0 && vp_g.spin == 0 && vp_g.dead == 0 && vp_g.waited == 0", "vp_g.queued == __CPROVER_loop_entry(vp_g.queued)"],
+    "assigns": GSTEP + ["mu->word", "old_word", "spin_attempts"]}]}
+L_MU_WAIT = {"nsync_mu_wait_with_deadline": [
+    {"names": ["mu", "l_type", "w", "outcome", "condition_is_true", "first_wait", "condition", "old_word"],
+     "invariants": ["vp_g.spin == 0 && vp_g.dead == 0 && vp_g.waited == 0 && vp_g.queued == 0", HOLDLT,
+                    "(vp_tag_C01_hold != 0 || vp_g.hold == __CPROVER_loop_entry(vp_g.hold))",
+                    "w == 0 || (w == &vp_my_w && vp_reg.my_waiting == &vp_my_w.nw.waiting)",
+                    "outcome == 0 || outcome == 110 || outcome == 125",
+                    "(vp_tag_C05_reason != 0 || outcome == 0 || outcome == vp_g.last_sem_outcome)",
+                    "(vp_tag_C05_reason != 0 || (condition_is_true != 0) == (condition == 0 || vp_g.last_cond != 0))"],
+     "assigns": GALL + ["vp_fw", "vp_my_w", "vp_reg.my_waiting", "mu->word", "mu->waiters", "w", "outcome", "condition_is_true", "first_wait", "old_word"]},
+    {"names": ["mu", "l_type", "old_word", "add_to_acquire", "had_waiters"],
+     "invariants": ["vp_g.spin == 1 && vp_g.dead == 0 && vp_g.waited == 0 && vp_g.queued == 1", HOLDLT, "vp_g.hold == __CPROVER_loop_entry(vp_g.hold)"],
+     "assigns": GSTEP + ["mu->word", "old_word", "add_to_acquire"]},
+    {"names": ["mu", "l_type", "sem_outcome", "have_lock", "outcome", "attempts", "w"],
+     "invariants": ["vp_g.spin == 0 && vp_g.dead == 0 && vp_g.waited == 0", "w == &vp_my_w && vp_reg.my_waiting == &vp_my_w.nw.waiting",
+                    "have_lock == 0 || have_lock == 1",
+                    "(have_lock == 0 && vp_g.hold == 0 && vp_g.queued == 1) || (have_lock == 1 && vp_my_w.nw.waiting == 0 && vp_g.queued == 0 && " + HOLDLT + ")",
+                    "sem_outcome == 0 || sem_outcome == 110 || sem_outcome == 125",
+                    "(vp_tag_C05_reason != 0 || sem_outcome == 0 || sem_outcome == vp_g.last_sem_outcome)",
+                    "(vp_tag_C05_reason != 0 || outcome == 0 || (have_lock == 1 && outcome == sem_outcome))"],
+     "assigns": GALL + ["vp_fw", "vp_my_w.nw.waiting", "vp_my_w.remove_count", "mu->word", "mu->waiters", "sem_outcome", "have_lock", "outcome", "attempts"]}]}
+
+SLOW = ["nsync_mu_lock_slow_", "nsync_waiter_new_", "nsync_waiter_free_"]
+
+
+def _mu(name, src, fn, entry, replace=(), loops=None, tags=None, **kw):
+    kw.setdefault("timeout", 600)
+    kw.setdefault("unwind", 40)
+    kw.setdefault("min_obligations", 100)
+    return Group(name=name, srcs=[src] + RG + ["repo:internal/common.c"], entry=entry, enforce=fn, replace=list(replace), loops=loops,
+                 defines=MU_DEF, tags=tags, assumed=MU_ASSUMED, replay="rg", **kw)
+
+
+def mu_groups(tags=None, which=None):
+    M, W = "harness/mu/mu_all.c", "harness/mu/mu_wait_all.c"
+    gs = [
+        _mu("mu.lock_slow", M, "nsync_mu_lock_slow_", "h_lock_slow", ["nsync_spin_delay_", "mu_release_spinlock"], L_LOCK_SLOW, tags),
+        _mu("mu.release_spinlock", M, "mu_release_spinlock", "h_release_spinlock", [], L_REL_SPIN, tags),
+        _mu("mu.trylock", M, "nsync_mu_trylock", "h_trylock", [], None, tags),
+        _mu("mu.rtrylock", M, "nsync_mu_rtrylock", "h_rtrylock", [], None, tags),
+        _mu("mu.lock", M, "nsync_mu_lock", "h_lock", SLOW, None, tags),
+        _mu("mu.rlock", M, "nsync_mu_rlock", "h_rlock", SLOW, None, tags),
+        _mu("mu.unlock", M, "nsync_mu_unlock", "h_unlock", ["nsync_mu_unlock_slow_"], None, tags),
+        _mu("mu.runlock", M, "nsync_mu_runlock", "h_runlock", ["nsync_mu_unlock_slow_"], None, tags),
+        _mu("mu.unlock_without_wakeup", W, "nsync_mu_unlock_without_wakeup", "h_unlock_without_wakeup", ["nsync_mu_unlock_slow_"], None, tags),
+        _mu("mu.try_acquire_after_timeout", W, "mu_try_acquire_after_timeout_or_cancel", "h_try_acquire",
+            ["nsync_spin_delay_", "nsync_remove_from_mu_queue_"], L_TRY_ACQ, tags),
+        # nsync_mu_wait_with_deadline: static (non-dfcc) contract instrumentation, see DESIGN.md section 5 addendum 2
+        _mu("mu.wait_with_deadline", W, None, "h_mu_wait",
+            ["nsync_spin_delay_", "nsync_waiter_new_", "nsync_waiter_free_", "nsync_spin_test_and_set_", "nsync_maybe_merge_conditions_",
+             "nsync_mu_unlock_slow_", "nsync_sem_wait_with_cancel_", "mu_try_acquire_after_timeout_or_cancel", "nsync_mu_lock_slow_"],
+            L_MU_WAIT, tags, oldstyle=True, object_bits=10, timeout=900, functions=["nsync_mu_wait_with_deadline"]),
+    ]
+    C = "harness/mu/common_all.c"
+    gs += [
+        Group(name="mu.spin_test_and_set", srcs=[C] + RG, entry="h_spin_test_and_set_mu", enforce="nsync_spin_test_and_set_",
+              replace=["nsync_spin_delay_"], loops=L_SPIN_TAS, defines=MU_DEF, tags=tags, unwind=40, timeout=600, min_obligations=100, assumed=MU_ASSUMED),
+        Group(name="common.spin_test_and_set_other_word", srcs=[C] + RG, entry="h_spin_test_and_set_other", enforce="nsync_spin_test_and_set_",
+              replace=["nsync_spin_delay_"], loops=L_SPIN_TAS, defines=MU_DEF, tags=tags, unwind=40, timeout=600, min_obligations=100),
+        Group(name="common.spin_delay", srcs=[C] + RG, entry="h_spin_delay", enforce="nsync_spin_delay_", defines=MU_DEF, tags=tags,
+              unwind=40, unwind_fn={"nsync_spin_delay_": 66}, timeout=600, min_obligations=5),
+    ]
+    if which is not None:
+        gs = [g for g in gs if g.name in which]
+    return gs
+
+
+def mu_lemmas(tags=None):
+    S = ["harness/mu/lemmas.c"] + RG + ["repo:internal/common.c"]
+    return [Group(name="mu.lemma_LJ", srcs=S, entry="h_lemma_LJ", no_dfcc=True, kind="lemma", defines=MU_DEF, tags=tags, min_obligations=5),
+            Group(name="mu.lock_types_real_tables", srcs=S, entry="h_lock_types", no_dfcc=True, kind="lemma", defines=MU_DEF, tags=tags, min_obligations=5)]
